@@ -39,6 +39,7 @@ import abstract_systems as A  # noqa: E402
 VALID = ("ode", "dae", "nla", "algebraic")
 ROLES = ["state", "constant", "computed_constant", "algebraic", "nla_unknown", "voi", "non_primary", "foreign"]
 VOI_VALUE = 0.25
+VOI_INIT = 0.125        # initialiseVariables is called at another time than computeRates / computeVariables
 
 
 # ------------------------------------------------------------------------------------------ small helpers
@@ -321,6 +322,69 @@ def gen_markings(rng, system, base, limit, exhaustive):
     return out
 
 
+def nla_coupled_system(rng):
+    """NLA equations (1-3, each over 1-3 unknowns, none isolated) whose coupling goes through 0-2 shared variables, with the
+    markings that decide how the analyser must group them: all / some / none of the coupling variables marked (grouping
+    into NLA systems is computed on the unknowns that are left once the external ones are pruned).  One component; every
+    variable may carry an initial guess.  Returns (system, [markings])."""
+    n_eq = rng.choice([1, 2, 2, 3, 3])
+    n_c = rng.choice([0, 1, 1, 2]) if n_eq > 1 else rng.choice([0, 1])
+    names = []
+    def new_var(p_init=0.7):
+        names.append({"name": len(names), "cls": len(names), "init": "c" if rng.random() < p_init else None})
+        return len(names) - 1
+    coupling = [new_var(0.8) for _ in range(n_c)]
+    eq_vars = []
+    for q in range(n_eq):
+        mine = [new_var() for _ in range(rng.choice([1, 1, 2]))]
+        eq_vars.append(mine)
+    for cv in coupling:
+        users = rng.sample(range(n_eq), min(n_eq, rng.choice([2, 2, 3])))
+        for q in users:
+            eq_vars[q].append(cv)
+    extra_const = None
+    if rng.random() < 0.4:
+        extra_const = new_var(1.0)
+        eq_vars[rng.randrange(n_eq)].append(extra_const)
+    eqs = []
+    for q, vs in enumerate(eq_vars):
+        leaves = [["V", v] for v in vs]
+        rng.shuffle(leaves)
+        if len(leaves) == 1 or rng.random() < 0.3:
+            leaves.append(["V", vs[0]])              # x (op) x: never isolated
+        e = leaves[-1]
+        for l in reversed(leaves[:-1]):
+            e = ["O", l, e]
+        lhs, rhs = e, ["N"]
+        if rng.random() < 0.3:
+            lhs, rhs = rhs, lhs
+        eqs.append({"id": 1001 + q, "lhs": lhs, "rhs": rhs})
+    if rng.random() < 0.4:                           # something that reads an NLA unknown
+        y = new_var(0.0)
+        eqs.append({"id": 1001 + len(eqs), "lhs": ["V", y], "rhs": ["O", ["V", eq_vars[0][0]], ["N"]]})
+    if rng.random() < 0.5:                           # an ODE whose rate reads an NLA unknown: the model is a DAE, with a voi
+        tv = new_var(0.0)
+        z = new_var(1.0)
+        eqs.append({"id": 1001 + len(eqs), "lhs": ["D", tv, z], "rhs": ["O", ["V", eq_vars[-1][0]], ["N"]]})
+    rng.shuffle(eqs)
+    s = {"comps": [{"parent": None, "vars": names, "eqs": eqs}], "conns": []}
+    allv = ["0.%d" % i for i in range(len(names))]
+    def deps():
+        return [] if rng.random() < 0.6 else [rng.choice(allv) for _ in range(rng.choice([1, 2]))]
+    markings = []
+    cs = ["0.%d" % v for v in coupling]
+    if cs:
+        markings.append([(v, deps()) for v in cs])                                   # all of the coupling
+        markings.append([(rng.choice(cs), deps())])                                  # some of it
+        markings.append([(v, deps()) for v in cs] + [("0.%d" % eq_vars[0][0], [])])  # and a private unknown
+    markings.append([("0.%d" % rng.choice(eq_vars[rng.randrange(n_eq)]), deps())])   # none of the coupling: a private unknown
+    if extra_const is not None:
+        markings.append([("0.%d" % extra_const, deps())])
+    for _ in range(2):
+        markings.append([(rng.choice(allv), deps()) for _ in range(rng.choice([1, 2, 3]))])
+    return s, markings
+
+
 # ------------------------------------------------------------------------------------------ emission: cutting the C code
 
 BODY_RE = {"BI": r"\nvoid initialiseVariables\([^)]*\)\n\{\n(.*?)\n?\}\n", "BC": r"\nvoid computeComputedConstants\([^)]*\)\n\{\n(.*?)\n?\}\n",
@@ -449,7 +513,8 @@ static void dumpArray(const char *name, const double *a, size_t n)
     printf(" %s", name);
     for (size_t i = 0; i < n; ++i) printf(" %.17g", a[i]);
 }
-static double value(size_t index) { return 1.5 + 0.25*(double) index; }
+/* the value of an external variable depends on its index and on the variable of integration */
+static double value(double voi, size_t index) { return 1.5 + 0.25*(double) index + 0.5*voi; }
 #if !C20_EXT
 #if C20_ODE
 #define DUMP() printf("end %s", phase); dumpArray("S", states, STATE_COUNT); dumpArray("R", rates, STATE_COUNT); dumpArray("V", variables, VARIABLE_COUNT); printf("\n")
@@ -462,7 +527,7 @@ static double callback(double voi, double *states, double *rates, double *variab
     printf("cb %s %zu", phase, index);
     dumpArray("S", states, STATE_COUNT); dumpArray("R", rates, STATE_COUNT); dumpArray("V", variables, VARIABLE_COUNT);
     printf("\n");
-    return value(index);
+    return value(voi, index);
 }
 #define DUMP() printf("end %s", phase); dumpArray("S", states, STATE_COUNT); dumpArray("R", rates, STATE_COUNT); dumpArray("V", variables, VARIABLE_COUNT); printf("\n")
 #else
@@ -471,7 +536,7 @@ static double callback(double *variables, size_t index)
     printf("cb %s %zu", phase, index);
     dumpArray("V", variables, VARIABLE_COUNT);
     printf("\n");
-    return value(index);
+    return value(0.0, index);
 }
 #define DUMP() printf("end %s", phase); dumpArray("V", variables, VARIABLE_COUNT); printf("\n")
 #endif
@@ -483,7 +548,7 @@ int main(void)
     double *states = createStatesArray();
     double *rates = createStatesArray();
 #if C20_EXT
-    phase = "init"; initialiseVariables(voi, states, rates, variables, callback); DUMP();
+    phase = "init"; initialiseVariables(@VOI0@, states, rates, variables, callback); DUMP();   /* another time than below */
     phase = "consts"; computeComputedConstants(variables); DUMP();
     phase = "rates"; computeRates(voi, states, rates, variables, callback); DUMP();
     phase = "vars"; computeVariables(voi, states, rates, variables, callback); DUMP();
@@ -521,7 +586,7 @@ def run_generated(iface_h, impl_c, workdir, name, timeout=20):
     os.makedirs(d, exist_ok=True)
     ode = "STATE_COUNT" in iface_h
     nla = "nlaSolve" in impl_c
-    main = C_MAIN.replace("@NLA@", NLA_SOLVER if nla else "").replace("@VOI@", repr(VOI_VALUE)) \
+    main = C_MAIN.replace("@NLA@", NLA_SOLVER if nla else "").replace("@VOI@", repr(VOI_VALUE)).replace("@VOI0@", repr(VOI_INIT)) \
         .replace("@NLACOUNTS@", "nlaCalls, nlaFail" if nla else "0, 0")
     for fn, txt in (("model.h", iface_h), ("model.c", impl_c), ("main.c", main)):
         with open(os.path.join(d, fn), "w") as f:
@@ -617,10 +682,13 @@ def check_execution(system, an, marks_kept, run, ignore_eqs=frozenset()):
             return arrays["R" if rate else "S"][v["index"]]
         return arrays["V"][v["index"]]
     # (e1) the callback is the only source of the external values
+    def cbvalue(index, voi):
+        return 1.5 + 0.25 * index + (0.5 * voi if run["ode"] else 0.0)
     for k, v in ext.items():
         got = final["V"][v["index"]]
-        if not same(got, 1.5 + 0.25 * v["index"], 0.0):
-            viol.append(("external-value", "external variable %s (variables[%d]) holds %r, the callback returned %r" % (v["var"], v["index"], got, 1.5 + 0.25 * v["index"])))
+        if not same(got, cbvalue(v["index"], VOI_VALUE), 0.0):
+            viol.append(("external-value", "external variable %s (variables[%d]) holds %r, the callback returned %r" % (
+                v["var"], v["index"], got, cbvalue(v["index"], VOI_VALUE))))
     for ph, idx, _a in run["events"]:
         if idx not in ext_by_index:
             viol.append(("callback-index", "callback invoked for index %d which is not an external variable" % idx))
@@ -684,7 +752,10 @@ def check_execution(system, an, marks_kept, run, ignore_eqs=frozenset()):
             seen.add(e)
             if e == target:
                 return True
-            todo.extend(d for d in an.eqs.get(e, {}).get("deps", []) if an.eqs.get(d, {}).get("type") != "ode")
+            for x in [e] + [s_ for s_ in an.eqs.get(e, {}).get("sibs", []) if s_ in an.eqs]:      # an NLA system is one node
+                if x != e:
+                    todo.append(x)
+                todo.extend(d for d in an.eqs.get(x, {}).get("deps", []) if an.eqs.get(d, {}).get("type") != "ode")
         return False
     # is an external equation on a cycle of the dependency graph (edges into ODEs are never followed)?
     def succ(e):
@@ -732,14 +803,28 @@ def check_execution(system, an, marks_kept, run, ignore_eqs=frozenset()):
             for v in c["vars"]:
                 if isinstance(v["init"], list) and byname.get(v["init"][1]) in ext and v["cls"] in an.vars and v["cls"] not in ext:
                     got = slot(v["cls"], init_end)
-                    want = 1.5 + 0.25 * ext[byname[v["init"][1]]]["index"]
+                    want = cbvalue(ext[byname[v["init"][1]]]["index"], VOI_INIT)
                     if not same(got, want, 0.0):
                         known.append(("C20-initialised-from-external",
                                       "after initialiseVariables %s (initial_value = a variable marked external) holds %r, not the callback's value %r" % (
                                           an.vars[v["cls"]]["var"], got, want)))
     # (e3) all other values satisfy the equations
+    def stale_external(e):
+        """the failing NLA equation reads an external variable on whose placeholder equation it does not depend"""
+        if an.eqs[e]["type"] != "nla":
+            return False
+        for c in system["comps"]:
+            byname = {v["name"]: v["cls"] for v in c["vars"]}
+            for q in c["eqs"]:
+                if str(q["id"]) == e:
+                    for k in {byname[n] for n in A.expr_names(q["lhs"]) + A.expr_names(q["rhs"])}:
+                        if k in ext and ext[k]["eqs"] and ext[k]["eqs"][0] not in an.eqs[e]["deps"]:
+                            return True
+        return False
     for e, text in value_failures(system, an, run, stats):
-        if e in ignore_eqs:
+        if stale_external(e):
+            known.append(("C20-nla-external-dependency", text + " (solved with the value the external variable had in initialiseVariables)"))
+        elif e in ignore_eqs:
             stats["value_failures_also_without_marks"] = stats.get("value_failures_also_without_marks", 0) + 1
         elif cyc_ext:
             known.append(("C20-cyclic-declared-dependency", text))
@@ -911,6 +996,13 @@ def run(ctx):
     while len(systems) < n_models + len(seeds):
         s = A.random_system(rng, max_classes=rng.choice([4, 6, 8, 10]))
         systems.append((s, None))
+    # NLA equations coupled through the variables that get marked (grouping after pruning)
+    n_nla = 40 if quick else 500
+    n_nla_systems = 0
+    for _ in range(n_nla):
+        s, ms = nla_coupled_system(rng)
+        systems.append((s, {"markings": ms}))
+        n_nla_systems += 1
     base_raw = run_sharded(drv, [], ["%s g -" % cellml_hex(s) for s, _ in systems], ctx.workdir, "base")
     base_impl = [strip_fields(l, ("CH", "CC")) for l in base_raw]
     bases = [Analysis(s, l) for (s, _), l in zip(systems, base_impl)]
@@ -933,7 +1025,7 @@ def run(ctx):
 
     cases = []       # dict(kind, mi, system, marks, roles, gen, extra)
     hist = {"model_type": {}, "roles_marked": {r: 0 for r in ROLES}, "roles_by_model_type": {}, "marks_per_case": {},
-            "case_kind": {}, "marked_result_type": {}, "dependency_graph": {}, "messages": {}, "adddependency_refused": 0, "adddependency_accepted": 0,
+            "case_kind": {}, "marked_result_type": {}, "dependency_graph": {}, "nla_coupled_systems": {}, "nla_systems_in_marked_results": {}, "messages": {}, "adddependency_refused": 0, "adddependency_accepted": 0,
             "executed": 0, "callbacks": 0, "dependency_checks_at_runtime": 0, "value_checks": 0, "nla_not_converged": 0,
             "independent_classes_compared": 0, "value_failures_also_without_marks": 0, "unmarked_models_with_failing_equations": 0, "not_executed_unmarked_program_fails": 0, "value_failures_in_mutually_dependent_nla_systems": 0, "variants": {}, "models_becoming_invalid_when_marked": 0}
 
@@ -943,7 +1035,10 @@ def run(ctx):
         if not b.ok or not b.valid:
             continue
         bump("model_type", b.type)
-        if fixed_marks is not None:
+        if isinstance(fixed_marks, dict):
+            marks_list = [(m, ["nla_coupling"]) for m in fixed_marks["markings"]]
+            bump("nla_coupled_systems", b.type)
+        elif fixed_marks is not None:
             marks_list = [([tuple(m) for m in fixed_marks], [])]
         else:
             marks_list = gen_markings(rng, s, b, per_model, exhaustive=not quick)
@@ -1037,6 +1132,7 @@ def run(ctx):
     ans = [Analysis(c["system"], l) for c, l in zip(cases, impl)]
     distinct = set()
     late = []
+    late_idx = []
     mismatch = 0
     mismatch_idx = []
     emission_idx = []
@@ -1050,21 +1146,26 @@ def run(ctx):
             violation("C20: implementation %s" % impl[i][:60], "impl_failure", payload(i))
             continue
         bump("marked_result_type", a.type)
+        if c["kind"] == "marked" and a.valid:
+            nsys = len({x["nla"] for x in a.eqs.values() if x["type"] == "nla"})
+            if nsys:
+                bump("nla_systems_in_marked_results", str(nsys))
         if "ACY" in fields(model_raw[i]):
             bump("dependency_graph", "acyclic" if fields(model_raw[i])["ACY"] == "1" else "cyclic")
         # ---- correspondence: exact
         if impl[i] != model[i]:
             mismatch += 1
             mismatch_idx.append(i)
-            if len(late) < 5:
+            if len(late) < 40:
                 late.append(("C20 correspondence: analyser and model differ", "correspondence", payload(i)))
+                late_idx.append(i)
         mf = fields(model_raw[i])
         if mf.get("ACY") == "1" and mf.get("ORD") != "1111":
             violation("C20 model: emission order of the model violates ExternalDefs.ordered_from (%s)" % mf["ORD"], "model_order", payload(i))
         if c["kind"] in ("marked", "variant-marked"):
             bump("marks_per_case", str(len(c["marks"])))
             for r in c["roles"]:
-                hist["roles_marked"][r] += 1
+                hist["roles_marked"][r] = hist["roles_marked"].get(r, 0) + 1
                 bump("roles_by_model_type", "%s/%s" % (b.type, r))
             for m in a.messages():
                 bump("messages", m.split(":")[1])
@@ -1106,6 +1207,15 @@ def run(ctx):
             v = a.vars[k]
             if len(v["eqs"]) != 1 or a.eqs.get(v["eqs"][0], {}).get("type") != "external" or a.eqs[v["eqs"][0]]["vars"] != [k]:
                 violation("C20 oracle: external variable %s has no placeholder equation of type external of its own" % v["var"], "placeholder", payload(i))
+        # ---- oracle (a2): NLA grouping is that of the PRUNED unknown sets: the siblings of an NLA equation are the other
+        #      NLA equations with which it shares a computed (hence non-external) variable
+        for e in a.eq_order:
+            if a.eqs[e]["type"] == "nla":
+                shared = {f for f in a.eq_order if f != e and a.eqs[f]["type"] == "nla" and set(a.eqs[f]["vars"]) & set(a.eqs[e]["vars"])}
+                if shared != set(a.eqs[e]["sibs"]):
+                    violation("C20 oracle: NLA equation %s has siblings %s but shares a computed variable with %s" % (e, sorted(a.eqs[e]["sibs"]), sorted(shared)),
+                              "nla_grouping", payload(i))
+                    break
         if a.has_ext != bool(got):
             violation("C20 oracle: hasExternalVariables() = %s with external variables %s" % (a.has_ext, sorted(got)), "has_ext", payload(i))
         # ---- oracle (b): independent unchanged
@@ -1196,9 +1306,10 @@ def run(ctx):
             if key in mf and mf[key] != toks.get(key, ""):
                 emission_mismatch += 1
                 emission_idx.append((i, toks))
-                if len(late) < 5:
+                if len(late) < 40:
                     late.append(("C20 correspondence: emission order of method %s differs (code %s, model %s)" % (key, toks.get(key), mf[key]),
                                  "emission", payload(i, {"code_tokens": toks})))
+                    late_idx.append(i)
                 break
         hist["executed"] += 1
         if not rn["ok"]:
@@ -1243,15 +1354,39 @@ def run(ctx):
         if not line or bad:
             violation("C20 model: the extracted model refutes %s on a small system (a theorem or its stated sub-domain is wrong)" % bad,
                       "search", {"search": line})
+    # open known finding C20-nla-external-dependency (fixes/C20-nla-external-dependency.diff): inside its class the
+    # implementation may behave as the repaired model or as the model without that repair
+    if mismatch_idx or emission_idx:
+        idxs = sorted(set(mismatch_idx) | {i for i, _ in emission_idx})
+        nd = dict(zip(idxs, run_sharded(mdl, ["nodep"], [mdl_lines[i] for i in idxs], ctx.workdir, "nodep")))
+        tok_of = dict(emission_idx)
+        excused = set()
+        for i in idxs:
+            u = nd[i]
+            uf = fields(u)
+            in_class = any(x["type"] == "nla" for x in ans[i].eqs.values()) and any(v["type"] == "external" for v in ans[i].vars.values())
+            same_analysis = strip_fields(u, ("BI", "BC", "BR", "BV", "ACY", "ORD")) == impl[i]
+            same_emission = i not in tok_of or all(uf.get(k, "") == tok_of[i].get(k, "") for k in ("BI", "BC", "BR", "BV"))
+            if in_class and same_analysis and same_emission and ctx.known_finding(
+                    "C20-nla-external-dependency",
+                    "an NLA equation does not depend on the external variable pruned from its unknowns: %s | %s" % (mdl_lines[i][:80], marks_text(cases[i]["marks"]))):
+                excused.add(i)
+        if excused:
+            hist["cases_behaving_as_the_code_without_the_nla_external_dependency_fix"] = len(excused)
+            mismatch_idx = [i for i in mismatch_idx if i not in excused]
+            emission_idx = [(i, tk) for i, tk in emission_idx if i not in excused]
+            late = [(w, n, c) for (w, n, c), i in zip(late, late_idx) if i not in excused]
+            mismatch = len(mismatch_idx)
+            emission_mismatch = len(emission_idx)
     # a difference that is exactly the defect repaired by fixes/C20-voi-external.diff is named as such
     if mismatch_idx:
         unf = run_sharded(mdl, ["unfixed"], [mdl_lines[i] for i in mismatch_idx], ctx.workdir, "unfixed")
         unf = [strip_fields(l, ("BI", "BC", "BR", "BV", "ACY", "ORD")) for l in unf]
         nvoi = sum(1 for i, u in zip(mismatch_idx, unf) if impl[i] == u)
-        ctx.log("%d of the %d differing analyses are exactly the model of the code WITHOUT fixes/C20-voi-external.diff "
-                "(defect C20-voi-marked-external: the variable of integration marked as external stays external)" % (nvoi, len(mismatch_idx)))
+        ctx.log("%d of the %d differing analyses are exactly the model of the analyser WITHOUT fixes/C20-voi-external.diff and "
+                "fixes/C20-nla-external-dependency.diff (defects C20-voi-marked-external, C20-nla-external-dependency)" % (nvoi, len(mismatch_idx)))
         hist["differences_explained_by_unrepaired_voi_defect"] = nvoi
-        late = [(w + (" [= model of the unrepaired code: defect C20-voi-marked-external]" if c.get("impl") in unf else ""), n, c) for w, n, c in late]
+        late = [(w + (" [= model of the unrepaired analyser]" if c.get("impl") in unf else ""), n, c) for w, n, c in late]
     if emission_idx:
         unf = run_sharded(mdl, ["unfixed"], [mdl_lines[i] for i, _ in emission_idx], ctx.workdir, "unfixed_emission")
         nsib = 0
